@@ -111,6 +111,21 @@ def outcome(r):
 # ---------------------------------------------------------------- building the four modes
 
 
+def tree_size(rules: dict, cap: int = 20001) -> int:
+    n = 0
+    for r in rules.values():
+        if isinstance(r, BuiltInRule):
+            continue
+        stack = [r.expression]
+        while stack:
+            e = stack.pop()
+            n += 1
+            if n >= cap:
+                return n
+            stack.extend(e.children())
+    return n
+
+
 class Modes:
     """the four execution modes of one grammar text (+ a pass list for the optimised ones)"""
 
@@ -120,6 +135,10 @@ class Modes:
         self.src0 = self.p0.generate()
         self.g0 = P.load_generated(self.src0)
         self.p1 = P.make_parser(gtext, mk_optimizer(passes))
+        # a self-referential silent rule under e+ doubles at every inline/unroll round: such trees (and the hundreds of
+        # megabytes of source generated from them) are a matter of resources, not of any property here - skipped, counted
+        if tree_size(self.p1.rules) > 20000:
+            raise P.Unsupported("optimized rule table too large to generate code from")
         self.src1 = self.p1.generate()
         self.g1 = P.load_generated(self.src1)
         self.parse = {"interp": self.p0.parse, "opt": self.p1.parse, "gen": self.g0.parse, "optgen": self.g1.parse}
